@@ -13,17 +13,23 @@ _CITE = re.compile(r"\[([^\[\]\s:]+\.fcp):(-?\d+)\]")
 _GUTTER = re.compile(r"^\s*(-?\d+) \|", re.M)
 
 
-def observe(text, cwd=None, logger=None):
+def observe(text, cwd=None, logger=None, path=None):
     """one get_fcp_from_string call -> event fields.  logger: a Logger shared by a whole session of calls (the sources
     judged are then the CURRENT text, whatever the logger remembers from earlier calls)"""
-    from fcp.parser import get_fcp_from_string
+    from fcp.parser import get_fcp_from_string, get_fcp
     from fcp.error import Logger
     session = logger is not None
     if logger is None:
         logger = Logger({})
     ev = {"outcome": "ok", "rendered": 0, "citations": [], "sources": [], "detail": ""}
     try:
-        r = pycodec.with_timeout(20, get_fcp_from_string, text, logger)
+        if path is not None:
+            # the file entry point: the text is written to <path> and loaded with get_fcp
+            with open(path, "w", newline="", encoding="utf-8", errors="surrogatepass") as f:
+                f.write(text)
+            r = pycodec.with_timeout(20, get_fcp, path, logger)
+        else:
+            r = pycodec.with_timeout(20, get_fcp_from_string, text, logger)
     except pycodec.CallTimeout:
         ev["outcome"] = "timeout"
         return ev
@@ -61,6 +67,11 @@ def observe(text, cwd=None, logger=None):
     return ev
 
 
+def _file_safe(text):
+    """texts that read back from a file exactly as written (no CR: universal newlines; no lone surrogates: not UTF-8)"""
+    return "\r" not in text and not any(0xd800 <= ord(c) <= 0xdfff for c in text)
+
+
 def rand_text(rng, seeds):
     r = rng.random()
     if r < 0.3:
@@ -68,7 +79,7 @@ def rand_text(rng, seeds):
         alphabet = "abc {}[]():;,@|=.\"\n\t/*-0123456789uiUIstructenumimplOptional"
         return "".join(rng.choice(alphabet) for _ in range(n))
     if r < 0.45:
-        return "".join(chr(rng.choice([0, 1, 9, 10, 13, 27, 127, 160, 0x3b1, 0x1f600, rng.randint(32, 126)])) for _ in range(rng.randint(0, 80)))
+        return "".join(chr(rng.choice([0, 1, 9, 10, 13, 27, 127, 0x85, 0x92, 160, 0x3b1, 0xe000, 0xfffe, 0x1f600, rng.randint(32, 126), rng.randint(0x80, 0x2fff)])) for _ in range(rng.randint(0, 80)))
     if r < 0.55:
         return 'version: "3"\n' + "struct S { a @0: u8, }\n" * rng.randint(0, 3) + "x" * rng.choice([1, 1000, 20000])
     # multi-mutation of a seed at character level
@@ -119,6 +130,16 @@ def run_c11(tier, seed):
         for n in range(0, len(s), step + 1):
             inputs.append(("char-prefix-xc", s[:n]))
             inputs.append(("char-prefix-xc", s[:n] + "\u2028"))
+    # one stray character of every kind of code point (C0/C1 controls, format characters, combining marks, private use,
+    # noncharacters, unassigned, a lone surrogate, astral planes ...) at several places of a well-formed text
+    STRAY = [0x00, 0x07, 0x1b, 0x7f, 0x80, 0x85, 0x92, 0x9f, 0xa0, 0xad, 0x301, 0x378, 0x200b, 0x200f, 0x2028, 0x2029, 0x202e,
+             0xd800, 0xdfff, 0xe000, 0xf8ff, 0xfdd0, 0xfeff, 0xfffe, 0xffff, 0xff21, 0x1f600, 0x2fffe, 0xe0001, 0xf0000, 0x10fffd, 0x10ffff]
+    for s in (seeds[:2] if tier == "quick" else seeds[:8]):
+        cuts = sorted({0, s.find("\n") + 1, s.find("{") + 1, len(s) // 2, max(0, s.rfind("}")), len(s)})
+        for cp in STRAY:
+            for n in cuts:
+                inputs.append(("stray-char", s[:n] + chr(cp) + s[n:]))
+                inputs.append(("stray-char", s[:n] + chr(cp)))
     nrand = 600 if tier == "quick" else 20000
     for _ in range(nrand):
         inputs.append(("random", rand_text(rng, seeds or ['version: "3"\n'])))
@@ -127,6 +148,20 @@ def run_c11(tier, seed):
     os.makedirs(os.path.join(chk.workdir, "a"), exist_ok=True)     # the module the `mod a.b;` seed imports
     with open(os.path.join(chk.workdir, "a", "b.fcp"), "w") as f:
         f.write('version: "3"\n\nstruct Imported {\n    v @0: u8,\n}\n')
+    # import chains of depth 1..3 (main -> c<k>d<n>/m1 -> m2 -> m3) with a fault in the DEEPEST module: the error comes back through
+    # every importer and must still be renderable by the caller's logger
+    FAULTS = ['struct Broken { q @', 'struct Broken {\n    q @0: u8,\n', 'struct Late { q @0: Nowhere, }', 'struct Odd { q @0.5: u8, }',
+              'enum Odd { }', 'struct Odd { q @0: u8 | nosuch("C"), }', 'enum Odd { Kelvin = "K", }', 'struct Odd { q @0: u8 | range(1), }',
+              'struct Fine { q @0: u8, }']
+    for k, fault in enumerate(FAULTS):
+        for depth in (1, 2, 3):
+            d = os.path.join(chk.workdir, "c%dd%d" % (k, depth))
+            os.makedirs(d, exist_ok=True)
+            for lvl in range(1, depth + 1):
+                with open(os.path.join(d, "m%d.fcp" % lvl), "w") as f:
+                    body = ("mod m%d;\n" % (lvl + 1)) if lvl < depth else fault + "\n"
+                    f.write('version: "3"\n\nstruct L%d { v @0: u8, }\n%s' % (lvl, body))
+            inputs.append(("module-chain-depth-%d" % depth, 'version: "3"\nmod c%dd%d.m1;\nstruct T { a @0: u8, }\n' % (k, depth)))
     os.chdir(chk.workdir)       # `mod` paths of in-memory sources resolve against the cwd
     try:
         from fcp.error import Logger
@@ -134,7 +169,10 @@ def run_c11(tier, seed):
         rng.shuffle(inputs)           # sessions then mix short and long texts
         for i, (kind, text) in enumerate(inputs):
             # every third input belongs to a session of 25 calls that share one Logger, as a long-lived tool would
-            if i % 3 == 0:
+            if kind.startswith("module-chain") or (i % 10 == 1 and _file_safe(text)):
+                ev = observe(text, path=os.path.join(chk.workdir, "main.fcp"))
+                kind = kind + "/file-entry"
+            elif i % 3 == 0:
                 if shared is None or i % 75 == 0:
                     shared = Logger({})
                 ev = observe(text, logger=shared)
